@@ -382,6 +382,17 @@ func (c *Client) monitor(ctx context.Context) {
 				activeSubs      int                 // number of active subscriptions to resume/recreate
 			)
 
+			// reportState reports a state of the reconnection unless the client
+			// has been closed meanwhile: Close() has already reported Closed and
+			// nothing but Closed may follow it.
+			reportState := func(s ConnState) bool {
+				if ctx.Err() != nil {
+					return false
+				}
+				c.setState(ctx, s)
+				return true
+			}
+
 			for action != none {
 
 				select {
@@ -413,7 +424,9 @@ func (c *Client) monitor(ctx context.Context) {
 							c.setSecureChannel(nil)
 						}
 
-						c.setState(ctx, Reconnecting)
+						if !reportState(Reconnecting) {
+							return
+						}
 
 						dlog.Printf("trying to recreate secure channel")
 						for {
@@ -439,7 +452,9 @@ func (c *Client) monitor(ctx context.Context) {
 						// This only works if the session is still open on the server
 						// otherwise recreate it
 
-						c.setState(ctx, Reconnecting)
+						if !reportState(Reconnecting) {
+							return
+						}
 
 						s := c.Session()
 						if s == nil {
@@ -483,7 +498,9 @@ func (c *Client) monitor(ctx context.Context) {
 						dlog.Printf("action: recreateSession")
 						verifPoint("mon.action", c, "action", "recreateSession")
 
-						c.setState(ctx, Reconnecting)
+						if !reportState(Reconnecting) {
+							return
+						}
 						// create a new session to replace the previous one
 
 						// clear any previous session as we know the server has closed it
@@ -590,7 +607,9 @@ func (c *Client) monitor(ctx context.Context) {
 							activeSubs++
 						}
 
-						c.setState(ctx, Connected)
+						if !reportState(Connected) {
+							return
+						}
 						action = none
 
 					case abortReconnect:
@@ -661,11 +680,13 @@ func (c *Client) Close(ctx context.Context) error {
 	// try to close the session but ignore any error
 	// so that we close the underlying channel and connection.
 	c.CloseSession(ctx)
-	c.setState(ctx, Closed)
 
+	// stop the monitor first so that none of its reconnect actions
+	// reports a state after Closed
 	if c.mcancel != nil {
 		c.mcancel()
 	}
+	c.setState(ctx, Closed)
 	if sc := c.SecureChannel(); sc != nil {
 		sc.Close()
 		c.setSecureChannel(nil)
